@@ -257,6 +257,14 @@ pub fn record(ct: u8, ver: u16, body: &[u8]) -> Vec<u8> {
 /// Bytes a client may send after its ClientHello: CCS, a non-hello handshake record, app data.
 pub fn trailing(r: &mut Rng) -> Vec<u8> {
     let mut v = vec![];
+    // one tail in six is large (coalesced early data / a burst of application records)
+    if r.chance(1, 6) {
+        for _ in 0..r.urange(1, 4) {
+            let n = r.urange(1000, 6000);
+            v.extend_from_slice(&record(0x17, 0x0303, &r.bytes(n)));
+        }
+        return v;
+    }
     let n = r.below(4);
     for _ in 0..n {
         match r.below(4) {
